@@ -735,6 +735,9 @@ Section Conf.
     - rewrite F_statement. cbn [app]. apply dropws_nows. ascii.
   Qed.
 
+  Lemma wf_head_nows0 x : wf x = true -> dropws (F x) = F x.
+  Proof. intros H. pose proof (wf_head_nows x [] H) as E0. now rewrite app_nil_r in E0. Qed.
+
   (* ---- atoms ---- *)
   Lemma strip_ws_all w : forallb isws w = true -> strip_ws ucls w = [].
   Proof.
@@ -1088,4 +1091,227 @@ Section Conf.
     - pose proof Hw as Hw'. cbn [lterm_wf] in Hw'. apply andb_true_iff in Hw' as [Hw' Hwp].
       apply andb_true_iff in Hw' as [_ Hws]. apply conf_statement; auto.
   Qed.
+
+  (* ---------------------------------------------------------------------------------------- *)
+  (* the entry rule: a formatted term is classified as a term                                   *)
+  (* ---------------------------------------------------------------------------------------- *)
+  (* e+ in atomic context for a single-character matcher: the maximal run of matching characters *)
+  Lemma ev_rep_ctest e f ds r :
+    ctest e f -> forallb f ds = true -> match r with [] => true | c :: _ => negb (f c) end = true ->
+    Erep e Atomic (ds ++ r) (POk r []).
+  Proof.
+    intros He. induction ds as [|d ds IH]; cbn [forallb app]; intros Hd Hr.
+    - eapply ev_rep_nil; [apply ev_skip_atomic|]. pose proof (He r) as H. destruct r as [|c r']; [exact H|].
+      apply negb_true_iff in Hr. now rewrite Hr in H.
+    - apply andb_true_iff in Hd as [Hd Hds]. pose proof (He (d :: ds ++ r)) as H. cbn beta iota in H. rewrite Hd in H.
+      change (POk r []) with (POk r ([] ++ [] ++ [])).
+      eapply ev_rep_cons; [apply ev_skip_atomic | exact H | now apply IH].
+  Qed.
+  Lemma ev_plus_ctest e f d ds r :
+    ctest e f -> f d = true -> forallb f ds = true -> match r with [] => true | c :: _ => negb (f c) end = true ->
+    E (PPlus e) Atomic ((d :: ds) ++ r) (POk r []).
+  Proof.
+    intros He Hd Hds Hr. apply ev_plus. pose proof (He ((d :: ds) ++ r)) as H. cbn [app] in H. cbn beta iota in H.
+    rewrite Hd in H. change (POk r []) with (POk r ([] ++ [] ++ [])).
+    eapply ev_seq_ok; [exact H | apply ev_skip_atomic |].
+    destruct ds as [|d2 ds].
+    - cbn [app]. apply ev_star_nil. pose proof (He r) as H2. destruct r as [|c r']; [exact H2|].
+      apply negb_true_iff in Hr. now rewrite Hr in H2.
+    - cbn [forallb app] in *. apply andb_true_iff in Hds as [Hd2 Hds].
+      pose proof (He (d2 :: ds ++ r)) as H2. cbn beta iota in H2. rewrite Hd2 in H2.
+      change (POk r []) with (POk r ([] ++ [])). eapply ev_star_cons; [exact H2 | exact (ev_rep_ctest e f ds r He Hds Hr)].
+  Qed.
+  Lemma ev_plus_ctest_fail e f r :
+    ctest e f -> match r with [] => true | c :: _ => negb (f c) end = true -> E (PPlus e) Atomic r PFail.
+  Proof.
+    intros He Hr. apply ev_plus, ev_seq_fail1. pose proof (He r) as H. destruct r as [|c r']; [exact H|].
+    apply negb_true_iff in Hr. now rewrite Hr in H.
+  Qed.
+
+  (* truth_budget_term = @{ (ASCII_DIGIT | ".")+ } *)
+  Definition numc (c : N) : bool := ucls UAsciiDigit c || (46 =? c).
+  Lemma ctest_numc : ctest (PChoice (PClass UAsciiDigit) (PStr [46])) numc.
+  Proof. apply (ctest_choice _ _ _ _ (ctest_class UAsciiDigit) (ctest_lit 46)). Qed.
+  Definition not_numc_head (r : str) : bool := match r with [] => true | c :: _ => negb (numc c) end.
+
+  Lemma ev_tbt d ds r :
+    numc d = true -> forallb numc ds = true -> not_numc_head r = true ->
+    E (PRef (ss "truth_budget_term")) NonAtomic ((d :: ds) ++ r) (POk r [Node (ss "truth_budget_term") (d :: ds) []]).
+  Proof.
+    intros Hd Hds Hr.
+    pose proof (ev_ref ucls G n0 (ss "truth_budget_term") _ NonAtomic ((d :: ds) ++ r) _ eq_refl
+                  (ev_plus_ctest _ _ d ds r ctest_numc Hd Hds Hr)) as H.
+    cbn [pr_mod rule emits] in H. now rewrite consumed_app in H.
+  Qed.
+  Lemma ev_tbt_fail r : not_numc_head r = true -> E (PRef (ss "truth_budget_term")) NonAtomic r PFail.
+  Proof.
+    intros Hr. exact (ev_ref ucls G n0 (ss "truth_budget_term") _ NonAtomic r _ eq_refl
+                        (ev_plus_ctest_fail _ _ r ctest_numc Hr)).
+  Qed.
+
+  (* the longest prefix of characters satisfying f *)
+  Fixpoint span (f : N -> bool) (s : str) : str * str :=
+    match s with
+    | c :: r => if f c then let (a, b) := span f r in (c :: a, b) else ([], s)
+    | [] => ([], [])
+    end.
+  Lemma span_spec f s :
+    s = fst (span f s) ++ snd (span f s) /\ forallb f (fst (span f s)) = true /\
+    match snd (span f s) with [] => true | c :: _ => negb (f c) end = true /\
+    (exists p, s = p ++ snd (span f s)).
+  Proof.
+    induction s as [|c r [H1 [H2 [H3 [p H4]]]]]; cbn [span]; [repeat split; exists []; reflexivity|].
+    destruct (f c) eqn:Hc.
+    - destruct (span f r) as [a b]. cbn [fst snd] in *. repeat split.
+      + now rewrite H1 at 1.
+      + cbn [forallb]. now rewrite Hc, H2.
+      + exact H3.
+      + exists (c :: p). cbn [app]. now rewrite H4 at 1.
+    - cbn [fst snd app forallb]. rewrite Hc. repeat split. exists []. reflexivity.
+  Qed.
+
+  (* a suffix of a list of atom characters *)
+  Lemma forallb_suffix (f : N -> bool) p s : forallb f (p ++ s) = true -> forallb f s = true.
+  Proof. rewrite forallb_app. intros H. apply andb_true_iff in H as [_ H]. exact H. Qed.
+
+  Lemma atom_head_facts r :
+    forallb atom_charb r = true ->
+    head_is 59 r = false /\ head_is 36 r = false /\ dropws r = r.
+  Proof.
+    destruct r as [|c r]; [repeat split|]. cbn [forallb]. intros H. apply andb_true_iff in H as [Hc _].
+    assert (Hn : forall x, atom_charb x = false -> (x =? c) = false).
+    { intros x Hx. destruct (N.eqb_spec x c) as [->|]; [congruence | reflexivity]. }
+    cbn [head_is]. rewrite (Hn 59), (Hn 36) by ascii. repeat split. apply dropws_nows, atom_not_ws, Hc.
+  Qed.
+
+  (* budget = { "$" ~ budget_content ~ "$" } fails on `$name` *)
+  Lemma ev_budget_fail_var c rest :
+    atom_charb c = true -> forallb atom_charb rest = true ->
+    E (PRef (ss "budget")) NonAtomic (36 :: c :: rest) PFail.
+  Proof.
+    intros Hc Hrest. set (name := c :: rest).
+    assert (Hall : forallb atom_charb name = true) by (unfold name; cbn [forallb]; now rewrite Hc, Hrest).
+    destruct (span_spec numc name) as [Hsp [Hds [Hr [p Hp]]]].
+    set (ds := fst (span numc name)) in *. set (r := snd (span numc name)) in *.
+    assert (Hrall : forallb atom_charb r = true) by (rewrite Hp in Hall; exact (forallb_suffix _ _ _ Hall)).
+    destruct (atom_head_facts r Hrall) as [H59 [H36 Hdw]].
+    destruct (atom_head_facts name Hall) as [_ [H36n Hdwn]].
+    (* budget_content leaves r (some digits consumed) or the whole name (none) *)
+    assert (Hcontent : exists rest' kids, (rest' = r \/ rest' = name) /\
+              E (PRef (ss "budget_content")) NonAtomic name (POk rest' kids)).
+    { destruct ds as [|d ds'] eqn:Hdse.
+      - (* no number: the "" alternative *)
+        exists name. eexists. split; [now right|].
+        assert (Hnl : E number_list NonAtomic name PFail).
+        { apply ev_seq_fail1, ev_tbt_fail. cbn [app] in Hsp. rewrite Hsp. exact Hr. }
+        pose proof (ev_ref ucls G n0 (ss "budget_content") _ NonAtomic name _ eq_refl
+                      (ev_choice_r _ _ _ _ _ _ _ _ Hnl (ev_str ucls G n0 [] NonAtomic name))) as H.
+        cbn [pr_mod rule emits starts length drop] in H. exact H.
+      - exists r. eexists. split; [now left|].
+        cbn [forallb] in Hds. apply andb_true_iff in Hds as [Hd Hds].
+        assert (Hnl : E number_list NonAtomic name
+                        (POk r ([Node (ss "truth_budget_term") (d :: ds') []] ++ [] ++ ([] ++ [] ++ [])))).
+        { rewrite Hsp. eapply ev_seq_ok; [exact (ev_tbt d ds' r Hd Hds Hr) | |].
+          { pose proof (ev_skip_na r) as Hs. rewrite Hdw in Hs. exact Hs. }
+          eapply ev_seq_ok; [apply ev_star_nil, ev_seq_fail1, ev_lit1_fail, H59 | |
+                             apply ev_star_nil, ev_lit1_fail, H59].
+          pose proof (ev_skip_na r) as Hs. rewrite Hdw in Hs. exact Hs. }
+        pose proof (ev_ref ucls G n0 (ss "budget_content") _ NonAtomic name _ eq_refl
+                      (ev_choice_l _ _ _ _ _ _ _ _ _ Hnl)) as H.
+        cbn [pr_mod rule emits] in H. exact H. }
+    destruct Hcontent as [rest' [kids [Hrest' Hbc]]].
+    refine (ev_ref ucls G n0 (ss "budget") _ NonAtomic (36 :: name) PFail eq_refl _).
+    eapply ev_seq_fail2; [apply ev_lit1_ok | |].
+    { pose proof (ev_skip_na name) as Hs. rewrite Hdwn in Hs. exact Hs. }
+    eapply ev_seq_fail2; [exact Hbc | |].
+    - destruct Hrest' as [->| ->]; [pose proof (ev_skip_na r) as Hs; rewrite Hdw in Hs | pose proof (ev_skip_na name) as Hs; rewrite Hdwn in Hs]; exact Hs.
+    - destruct Hrest' as [->| ->]; apply ev_lit1_fail; assumption.
+  Qed.
+
+  (* task = { budget ~ sentence } fails on every formatted term *)
+  Lemma ev_task_fail_term x : wf x = true -> E (PRef (ss "task")) NonAtomic (F x) PFail.
+  Proof.
+    intros Hw. refine (ev_ref ucls G n0 (ss "task") _ NonAtomic (F x) PFail eq_refl _). apply ev_seq_fail1.
+    assert (Hlit : forall s, head_is 36 s = false -> E (PRef (ss "budget")) NonAtomic s PFail).
+    { intros s Hs. refine (ev_ref ucls G n0 (ss "budget") _ NonAtomic s PFail eq_refl _).
+      apply ev_seq_fail1, ev_lit1_fail, Hs. }
+    destruct x as [p n|c ts|l ts r|c s p]; cbn [lterm_wf] in Hw.
+    - apply orb_true_iff in Hw as [H|H].
+      + apply andb_true_iff in H as [Hp Hn]. apply str_eqb_eq in Hp, Hn. subst p n. apply Hlit. reflexivity.
+      + apply andb_true_iff in H as [Hp Hn]. destruct (name_shape n Hn) as [c [rest [-> [Hc [_ [Hr _]]]]]].
+        apply orb_true_iff in Hp as [Hp|Hp].
+        * apply str_eqb_eq in Hp. subst p. cbn [lfmt_term app]. apply Hlit. cbn [head_is].
+          destruct (N.eqb_spec 36 c) as [<-|]; [|reflexivity]. assert (atom_charb 36 = false) by ascii. congruence.
+        * apply str_mem_In in Hp. vm_compute in Hp.
+          destruct Hp as [<-|[<-|[<-|[<-|[<-|[]]]]]]; cbn [lfmt_term app];
+            try (apply Hlit; reflexivity).
+          exact (ev_budget_fail_var c rest Hc Hr).
+    - apply andb_true_iff in Hw as [Hw _]. apply andb_true_iff in Hw as [_ Hne].
+      destruct ts as [|t ts]; [discriminate|]. rewrite F_compound. apply Hlit. reflexivity.
+    - apply andb_true_iff in Hw as [Hw _]. apply andb_true_iff in Hw as [Hb Hne].
+      destruct ts as [|t ts]; [discriminate|]. rewrite F_set.
+      apply existsb_exists in Hb as [[l' r'] [Hin He]]. unfold pair_eqb in He. cbn [fst snd] in He.
+      apply andb_true_iff in He as [Hl Hr]. apply str_eqb_eq in Hl, Hr. subst l' r'.
+      vm_compute in Hin. destruct Hin as [Hin|[Hin|[]]]; injection Hin as <- <-; apply Hlit; reflexivity.
+    - rewrite F_statement. apply Hlit. reflexivity.
+  Qed.
+
+  (* punctuation = { PUNCTUATION | SYMBOL } fails at the end of the input *)
+  Lemma ev_punctuation_eoi : E (PRef (ss "punctuation")) NonAtomic [] PFail.
+  Proof.
+    refine (ev_ref ucls G n0 (ss "punctuation") _ NonAtomic [] PFail eq_refl _).
+    apply ev_choice_r; apply (ev_class ucls G n0 _ NonAtomic []).
+  Qed.
+
+  (* the node of a `term` call *)
+  Lemma term_node s k' t : E (PRef (ss "term")) NonAtomic s (POk k' [t]) -> tree_rule t = ss "term".
+  Proof.
+    intros [n H]. specialize (H (S n) (Nat.le_succ_diag_r n)). rewrite run_ref in H.
+    change (find_rule G (ss "term")) with (Some (rule "term" MNormal (ref "statement" |/ ref "compound" |/ ref "atom")%peg)) in H.
+    cbn [pr_mod pr_body rule emits] in H.
+    destruct (run ucls G n0 n _ _ s); try discriminate. injection H as _ <-. reflexivity.
+  Qed.
+
+  Theorem narsese_term x :
+    wf x = true ->
+    exists k' txt t, E (PRef (ss "narsese")) NonAtomic (F x) (POk k' [Node (ss "narsese") txt [t]]) /\
+                     dropws k' = [] /\ tree_rule t = ss "term" /\ conv t = Some x.
+  Proof.
+    intros Hw. destruct (conf_all x Hw [] eq_refl) as [k' [t [He [Hd Hv]]]]. rewrite app_nil_r in He.
+    exists k'. eexists. exists t. split; [|split; [exact Hd | split; [exact (term_node _ _ _ He) | exact Hv]]].
+    assert (Hsent : E (PRef (ss "sentence")) NonAtomic (F x) PFail).
+    { refine (ev_ref ucls G n0 (ss "sentence") _ NonAtomic (F x) PFail eq_refl _).
+      eapply ev_seq_fail2; [exact He | | apply ev_seq_fail1, ev_punctuation_eoi].
+      pose proof (ev_skip_na k') as Hs. rewrite Hd in Hs. exact Hs. }
+    pose proof (ev_ref ucls G n0 (ss "narsese") _ NonAtomic (F x) _ eq_refl
+                  (ev_choice_r _ _ _ _ _ _ _ _ (ev_task_fail_term x Hw)
+                     (ev_choice_r _ _ _ _ _ _ _ _ Hsent He))) as H.
+    cbn [pr_mod rule emits] in H. exact H.
+  Qed.
 End Conf.
+
+(* ------------------------------------------------------------------------------------------ *)
+(* whole-input parse of a formatted term: accepted, kind `term`, the tree is the term itself    *)
+(* ------------------------------------------------------------------------------------------ *)
+Theorem lex_term_conforms ucls x :
+  ucls_ok ucls -> lterm_wf ucls opennars_lexicon x = true ->
+  exists n, forall m, (n <= m)%nat ->
+    readme_parse_with ucls expected_grammar m (lfmt_term SL x) = RValue (NTerm x).
+Proof.
+  intros Hok Hw. set (s := lfmt_term SL x).
+  destruct (narsese_term ucls Hok (length s) x Hw) as [k' [txt [t [He [Hd [Hr Hv]]]]]]. fold s in He.
+  assert (Htop : evals ucls expected_grammar (length s) (PSeq PSoi (PSeq (PRef (ss "narsese")) PEoi)) NonAtomic s
+                   (POk [] ([] ++ [] ++ ([Node (ss "narsese") txt [t]] ++ [] ++ [])))).
+  { eapply ev_seq_ok.
+    - pose proof (ev_soi ucls expected_grammar (length s) NonAtomic s) as H. rewrite Nat.eqb_refl in H. exact H.
+    - pose proof (ev_skip_na ucls (length s) s) as H. unfold s in H.
+      rewrite (wf_head_nows0 ucls Hok x Hw) in H. exact H.
+    - eapply ev_seq_ok; [exact He | | apply (ev_eoi ucls expected_grammar (length s) NonAtomic [])].
+      pose proof (ev_skip_na ucls (length s) k') as H. rewrite Hd in H. exact H. }
+  destruct Htop as [n Hn]. exists n. intros m Hm.
+  unfold readme_parse_with, parse_with. fold s. rewrite (Hn m Hm). cbn [app].
+  change (str_eqb (ss "narsese") (ss "narsese")) with true. cbn iota.
+  unfold lnarsese_of_tree, is_rule. rewrite Hr.
+  change (str_eqb (ss "term") (ss "task")) with false. change (str_eqb (ss "term") (ss "sentence")) with false.
+  change (str_eqb (ss "term") (ss "term")) with true. cbn iota. rewrite Hv. reflexivity.
+Qed.
